@@ -1,6 +1,7 @@
 //! C05 — only admins change roster or group data; identities never change.
 
 use crate::oracles::AuthzObserver;
+use proptest::prelude::*;
 use crate::plangen::{SetupOpts, Weights, plan_strategy_with};
 use crate::props::common::{base_report, run_plan};
 use crate::runner::{Args, CaseReport, Failure, Mode, RunPlan, Spec, Tier, drive};
@@ -39,12 +40,13 @@ pub fn main(args: &Args) -> i32 {
         leave: 2,
         immediate: 0,
         reinvite: true,
+        second_leaf: true,
         ..Weights::default()
     };
     let spec = Spec {
         id: "C05",
         level: "exploration",
-        rule: "histories of honest operations mixed with commits and proposals built directly with OpenMLS by any client that holds group state (admin, non-admin, a member that has not yet seen its own removal): add, remove, group-context-extension rename / self-promotion, path update, path update with a foreign identity, remove+update, by-reference commit of the pending queue, empty commit; proposals: remove, add, extension, update. Every delivery of a commit or proposal is judged at the receiver by full before/after fingerprints against what the event names. An admin's remove call names one to three members (keys in plan-chosen order) and must change exactly those - nothing more and nothing less. Non-trivial = an accepted commit whose author is not an admin in the receiver's epoch, a refused or queued rogue event, or an admin commit made while foreign proposals were pending; distinct = distinct plans".into(),
+        rule: "histories of honest operations mixed with commits and proposals built directly with OpenMLS by any client that holds group state (admin, non-admin, a member that has not yet seen its own removal): add, remove, group-context-extension rename / self-promotion, path update, path update with a foreign identity, remove+update, by-reference commit of the pending queue, empty commit; proposals: remove, add, extension, update. Every delivery of a commit or proposal is judged at the receiver by full before/after fingerprints against what the event names. An admin's remove call names one to three members (keys in plan-chosen order) and must change exactly those - nothing more and nothing less; members may hold a second leaf (a second key package of the same identity added later), and a removal by name must take all leaves of that identity. Non-trivial = an accepted commit whose author is not an admin in the receiver's epoch, a refused or queued rogue event, or an admin commit made while foreign proposals were pending; distinct = distinct plans".into(),
         assumptions: vec![
             "what an honest call names is known to the harness because it made the call; what a rogue event carries is known because the harness built it".into(),
             "an admin's commit may carry out a pending leave request of the leaver itself (the property's automatic case); anything else proposed by others may not ride along".into(),
@@ -58,7 +60,18 @@ pub fn main(args: &Args) -> i32 {
         args,
         spec,
         RunPlan { cases, workers: 16 },
-        || plan_strategy_with(&opts, &weights, len.clone()),
+        || {
+            // one history in eight starts with a directed prelude: a member gets a second leaf,
+            // then the admin removes that member by name
+            (plan_strategy_with(&opts, &weights, len.clone()), 0u8..8, any::<bool>())
+                .prop_map(|(mut p, roll, with_others)| {
+                    if roll == 0 {
+                        crate::plangen::second_leaf_then_remove_prelude(&mut p, with_others);
+                    }
+                    p
+                })
+                .boxed()
+        },
         exec,
     )
 }
